@@ -446,7 +446,8 @@ Inductive op :=
 | OpResponse (name : bytes) (data : list (bytes * goval))
 | OpEvalStr (src : bytes) (data : list (bytes * goval))
 | OpEvalFile (rel : bytes) (data : list (bytes * goval))
-| OpReg (ty name : bytes) (f : fnid).
+| OpReg (ty name : bytes) (f : fnid)
+| OpConfigure (dir ext errpage : bytes) (debug : bool).   (* textwire.Configure: the loaded templates stay *)
 
 Inductive obs :=
 | ObsNewOk (names : list bytes)
@@ -520,6 +521,8 @@ Definition step (fs : fsys) (st : gstate) (o : op) : gstate * obs :=
     if has_func (g_funcs st) ty name
     then (st, ObsErr (mkErr 0 [] (fmt ErrFuncAlreadyDefined [name; type_plural ty])))
     else (mkState (g_cfg st) (g_funcs st ++ [(ty, name, f)]) (g_tpl st), ObsRegOk)
+  | OpConfigure dir ext errpage debug =>
+    (mkState (configure (g_cfg st) dir ext errpage debug) (g_funcs st) (g_tpl st), ObsRegOk)
   end.
 
 Fixpoint run_history (fs : fsys) (st : gstate) (ops : list op) : list obs :=
